@@ -197,4 +197,66 @@ MUTANTS = [
       "Condu::from_conjunctions(param.arms)",
       "crate::operator::conda::Conda::from_conjunctions(param.arms)",
       {"C08": "delegation"}),
+    M("c01-no-walk-v", ["C01"], "src/state/unification.rs",
+      "let vwalk = state.smap_ref().walk(v).clone();",
+      "let vwalk = v.clone();",
+      {"C01": "walk-v"}),
+    M("c01-orientation", ["C01"], "src/state/unification.rs",
+      "                extension.extend(vwalk.clone(), uwalk.clone());\n                state.smap_to_mut().extend(vwalk, uwalk);",
+      "                extension.extend(vwalk.clone(), uwalk.clone());\n                state.smap_to_mut().extend(uwalk, vwalk);",
+      {"C01": "oriented-binding"}),
+    M("c01-drop-tail", ["C01"], "src/state/unification.rs",
+      "                Ok(state) => unify_rec(state, extension, utail, vtail),",
+      "                Ok(state) => { let _ = (utail, vtail); Ok(state) }",
+      {"C01": "Cons,Cons"}),
+    M("c01-no-occurs", ["C01"], "src/state/unification.rs",
+      "            if state.smap_ref().occurs_check(&vwalk, &uwalk) {",
+      "            if false && state.smap_ref().occurs_check(&vwalk, &uwalk) {",
+      {"C01": "occurs-check"}),
+    M("c01-occurs-skip-compound", ["C01"], "src/state/substitution.rs",
+      "            LTermInner::Compound(compound) => self.occurs_check_compound(x, compound.as_ref()),\n            _ => false,\n        }\n    }\n\n    fn reify_compound",
+      "            _ => false,\n        }\n    }\n\n    fn reify_compound",
+      {"C01": "occurs"}),
+    M("c01-occurs-head-only", ["C01"], "src/state/substitution.rs",
+      "self.occurs_check(x, head) || self.occurs_check(x, tail)",
+      "self.occurs_check(x, head)",
+      {"C01": "occurs"}),
+    M("c01-no-mirror", ["C01"], "src/state/unification.rs",
+      "                extension.extend(uwalk.clone(), vwalk.clone());\n",
+      "",
+      {"C01": "mirrored"}),
+    M("c01-compound-no-typeid", ["C01"], "src/state/unification.rs",
+      "    if ucompound.type_id() != vcompound.type_id() {\n        return Err(());\n    }\n",
+      "",
+      {"C01": "type-id"}),
+    M("c01-compound-arity-ok", ["C01"], "src/state/unification.rs",
+      "            (None, None) => return Ok(state),\n            _ => return Err(()),",
+      "            (None, None) => return Ok(state),\n            (None, Some(_)) => return Ok(state),\n            _ => return Err(()),",
+      {"C01": "compound"}),
+    M("c01-val-no-guard", ["C01"], "src/state/unification.rs",
+      "(LTermInner::Val(uval), LTermInner::Val(vval)) if uval == vval => {",
+      "(LTermInner::Val(uval), LTermInner::Val(vval)) if uval == vval || true => {",
+      {"C01": "Val,Val"}),
+    M("c01-fresh-ext-lost", ["C01"], "src/state/mod.rs",
+      "unify_rec(self, &mut extension, u, v)?.process_extension(extension)",
+      "unify_rec(self, &mut extension, u, v)?.process_extension(SMap::new())",
+      {"C01": "pipeline"}),
+    M("c01-walk-one-step", ["C01"], "src/state/substitution.rs",
+      "                        Some(s) => k = s, // recurse for variable-kind",
+      "                        Some(s) => return s,",
+      {"C01": "walk"}),
+    M("silent-c01-question-mark", ["C01"], "src/state/unification.rs",
+      """            match unify_rec(state, extension, uhead, vhead) {
+                Ok(state) => unify_rec(state, extension, utail, vtail),
+                Err(err) => Err(err),
+            }""",
+      """            let s = unify_rec(state, extension, uhead, vhead)?;
+            unify_rec(s, extension, utail, vtail)""",
+      silent=True),
+    M("silent-c01-tail-first", ["C01"], "src/state/unification.rs",
+      """            match unify_rec(state, extension, uhead, vhead) {
+                Ok(state) => unify_rec(state, extension, utail, vtail),""",
+      """            match unify_rec(state, extension, utail, vtail) {
+                Ok(state) => unify_rec(state, extension, uhead, vhead),""",
+      silent=True),
 ]
